@@ -15,7 +15,7 @@
    case per transition (input + the values the standard prescribes), which harness/c15_replay.cpp runs on asl.   *)
 EXTENDS Codecs, FiniteSets, TLC, Json
 
-CONSTANTS ByteAlpha, MaxBytes, RandMax, ShaMax, B64Alpha, MaxB64, HexAlpha, MaxHex, HexChainMax,
+CONSTANTS ByteAlpha, MaxBytes, RandMax, ShaMax, Stride, B64Alpha, MaxB64, HexAlpha, MaxHex, HexChainMax,
           PctAlpha, MaxPct, QAlpha, MaxQ, DKeys, DVals, MaxPairs
 
 VARIABLES mode, x
@@ -34,13 +34,18 @@ Msg(n)      == [i \in 1..n |-> (i * 37 + n * 101 + ((i * i) % 199) * 7 + 11) % 2
 HexChain(n) == [i \in 1..n |-> HexDigit((i * 7 + n) % 16)]
 
 Init == mode = "boot" /\ x = <<>>
-Boot(m)     == mode = "boot" /\ mode' = m /\ x' = <<>>
+\* the three "one input per length" modes run as Stride interleaved chains (lengths r, r + Stride, ...), so that the
+\* breadth-first search has Stride states per level to work on in parallel instead of one
+Chained     == {"rand", "sha", "hexc"}
+ChainMsg(m, n) == IF m = "hexc" THEN HexChain(n) ELSE Msg(n)
+Boot(m)     == /\ mode = "boot" /\ mode' = m
+               /\ IF m \in Chained THEN \E r \in 0..(Stride - 1) : x' = ChainMsg(m, r) ELSE x' = <<>>
 GrowBytes   == mode = "bytes" /\ Len(x) < MaxBytes /\ \E b \in ByteAlpha : x' = Append(x, b) /\ UNCHANGED mode
-GrowRand    == mode = "rand" /\ Len(x) < RandMax /\ x' = Msg(Len(x) + 1) /\ UNCHANGED mode
-GrowSha     == mode = "sha" /\ Len(x) < ShaMax /\ x' = Msg(Len(x) + 1) /\ UNCHANGED mode
+GrowRand    == mode = "rand" /\ Len(x) + Stride <= RandMax /\ x' = Msg(Len(x) + Stride) /\ UNCHANGED mode
+GrowSha     == mode = "sha" /\ Len(x) + Stride <= ShaMax /\ x' = Msg(Len(x) + Stride) /\ UNCHANGED mode
 GrowB64T    == mode = "b64t" /\ Len(x) < MaxB64 /\ \E c \in B64Alpha : x' = Append(x, c) /\ UNCHANGED mode
 GrowHexT    == mode = "hext" /\ Len(x) < MaxHex /\ \E c \in HexAlpha : x' = Append(x, c) /\ UNCHANGED mode
-GrowHexC    == mode = "hexc" /\ Len(x) < HexChainMax /\ x' = HexChain(Len(x) + 1) /\ UNCHANGED mode
+GrowHexC    == mode = "hexc" /\ Len(x) + Stride <= HexChainMax /\ x' = HexChain(Len(x) + Stride) /\ UNCHANGED mode
 GrowPctT    == mode = "pctt" /\ Len(x) < MaxPct /\ \E c \in PctAlpha : x' = Append(x, c) /\ UNCHANGED mode
 GrowQry     == mode = "qry" /\ Len(x) < MaxQ /\ \E c \in QAlpha : x' = Append(x, c) /\ UNCHANGED mode
 GrowDict    == mode = "dict" /\ Len(x) < MaxPairs
